@@ -18,7 +18,7 @@ import sys
 import tempfile
 
 sys.path.insert(0, os.path.dirname(os.path.abspath(__file__)))
-from runall import run_all  # noqa: E402
+from runall import Scratch, run_all  # noqa: E402
 
 VERIF, REPO, PY = "/verif", "/repo", "/venv/bin/python"
 
@@ -41,10 +41,6 @@ def main():
         desc = {d["file"]: d for d in json.load(open(os.path.join(out, "benign.json")))}
     except (OSError, ValueError, KeyError, TypeError):
         desc = {}
-    rc, o = sh("git status --porcelain", cwd=REPO)
-    if o.strip():
-        print("/repo is not clean")
-        return 2
     meta = {"name": name, "patches": {}}
     for f in sorted(x for x in os.listdir(out) if x.endswith(".diff")):
         patch = os.path.join(out, f)
@@ -64,15 +60,10 @@ def main():
             meta["patches"][f] = rec
             continue
         rec["usable"] = True
-        rc, o = sh(f"git apply {patch}", cwd=REPO)
-        try:
-            rec["checks_that_fire"] = run_all()
-        finally:
-            sh("git checkout -- . && git reset -q && git clean -fdq liquid", cwd=REPO)
+        with Scratch(patch) as sc:
+            rec["checks_that_fire"] = run_all(root=sc.dir) if sc.applied else {"apply": {"exit": 2}}
         meta["patches"][f] = rec
         print(name, f, rec.get("kind"), "fired:", sorted(rec["checks_that_fire"]))
-    rc, o = sh("git status --porcelain", cwd=REPO)
-    assert not o.strip(), "/repo not restored: " + o
     json.dump(meta, open(os.path.join(out, "meta.json"), "w"), indent=1)
     return 0
 
